@@ -686,6 +686,42 @@ func ruleOWN(w *World, r *Report, o ownOpts) {
 		check("(rsec16.Coder).GenerateParity", "c", none, nil)
 		check("(rsec16.Coder).ReconstructData", "c", none, nil)
 	}
+	if o.coder {
+		// no partial effects on error: data rows are filled in only on paths that end in success
+		if fn := w.Fn("(rsec16.Coder).ReconstructData"); fn != nil && len(fn.Params) >= 2 {
+			data := fn.Params[1]
+			nst := 0
+			for _, b := range fn.Blocks {
+				for _, in := range b.Instrs {
+					st, ok := in.(*ssa.Store)
+					if !ok {
+						continue
+					}
+					ia, ok := st.Addr.(*ssa.IndexAddr)
+					if !ok || ia.X != ssa.Value(data) {
+						continue
+					}
+					nst++
+					key := fmt.Sprintf("(rsec16.Coder).ReconstructData:data-store#%d:only-on-success", nst-1)
+					bad := ""
+					for rb := range reachableBlocks(b, nil) {
+						if len(rb.Instrs) == 0 {
+							continue
+						}
+						if ret, ok := rb.Instrs[len(rb.Instrs)-1].(*ssa.Return); ok && len(ret.Results) == 1 && !isNilConst(ret.Results[0]) {
+							bad = w.ipos(ret)
+						}
+					}
+					if bad == "" {
+						r.ok("OWN", key, w.ipos(st), "rows of data are replaced only on paths that return nil")
+					} else {
+						r.bad("OWN", key, w.ipos(st), "a row of data is filled in before an error return at "+bad+" can still happen: after a failed reconstruction the caller's nil rows are no longer nil, so a retry sees nothing missing")
+					}
+				}
+			}
+			r.floor("OWN", "stores into rows of data in ReconstructData", nst, 1)
+		}
+	}
 	if o.matrix {
 		n := 0
 		for _, fn := range w.funcsInPkgs("gf2p16") {
